@@ -167,8 +167,14 @@ class _STIXBase(collections.abc.Mapping):
                         ext_id, "2.1", "extensions",
                     )
                     if registered_ext_class:
+                        # (a registered extension of another kind has no
+                        # top-level properties; its own cleaning will then
+                        # refuse the stray "extension_type")
                         registered_toplevel_extension_props.update(
-                            registered_ext_class._toplevel_properties,
+                            getattr(
+                                registered_ext_class,
+                                "_toplevel_properties", {},
+                            ),
                         )
                     else:
                         has_unregistered_toplevel_extension = True
